@@ -371,6 +371,61 @@ func genC03(r *Rng, tier string, emit func(string, Tok)) {
 		}
 		emit("pusi-after-loss", scenario{kind: r.Intn(3), optSize: []int{0, 188}[r.Intn(2)], fault: -1, chunks: []int{r.Range(1, 500)}, data: data, ops: ops(r)}.tok())
 	}
+	// hostile length fields: PES units whose PES_header_data_length / PES_packet_length contradict each other and the
+	// bytes present (header data length 250..255, packet length 0..12 and around header length + 3), spread over one
+	// to three packets; sections whose section_length / descriptor loop lengths point past the unit
+	pesHostile := func(hdl, plen, total int) []byte {
+		b := []byte{0, 0, 1, byte([]int{0xe0, 0xc0, 0xbd}[r.Intn(3)]), byte(plen >> 8), byte(plen), 0x80 | byte(r.Intn(16)), byte(r.Intn(256)), byte(hdl)}
+		return append(b, r.Bytes(total-len(b))...)
+	}
+	for _, hdl := range []int{0, 5, 200, 250, 252, 253, 254, 255} {
+		plens := []int{0, 1, 2, 3, hdl, hdl + 1, hdl + 2, hdl + 3, hdl + 4, 65535}
+		if tier != "thorough" {
+			plens = []int{1, 3, hdl + 2, hdl + 3, []int{0, 2, hdl, hdl + 1, hdl + 4, 65535}[r.Intn(6)]}
+		}
+		for _, plen := range plens {
+			for _, total := range []int{r.Range(9, 180), r.Range(262, 360), r.Range(400, 540)} {
+				u := &refUnit{PID: 0x200, Bytes: pesHostile(hdl, plen&0xffff, total)}
+				cc := byte(r.Intn(16))
+				var d []byte
+				for _, p := range packetiseUnit(r, u, 0, &cc, false) {
+					d = append(d, p.encode()...)
+				}
+				// a second unit start so that the first one is flushed by a packet, not by the end of the stream
+				u2 := &refUnit{PID: 0x200, Bytes: pesHostile(0, 0, 20)}
+				for _, p := range packetiseUnit(r, u2, 1, &cc, false) {
+					d = append(d, p.encode()...)
+				}
+				emit("pes-hostile-lengths", scenario{kind: r.Intn(3), optSize: 188, fault: -1, data: d, ops: []int{3, 1, 0}}.tok())
+			}
+		}
+	}
+	// packets that carry the payload flag and no payload byte (adaptation_field_length 183 with adaptation_field_control
+	// '11': not conformant, but a receiver sees such packets), first / middle / last in the queue of a PSI PID and of a
+	// PES PID, followed by continuations
+	for k := 0; k < scale(tier, 40, 400); k++ {
+		pid := uint16([]int{0, 0, 0x11, 0x300}[r.Intn(4)])
+		cc := byte(r.Intn(16))
+		var d []byte
+		for j := r.Range(2, 6); j > 0; j-- {
+			cc = (cc + 1) & 15
+			p := &refPacket{PID: pid, PUSI: r.Chance(1, 3), CC: cc, AFLen: -1}
+			switch r.Intn(3) {
+			case 0:
+				p.AFLen, p.Payload = 183, []byte{} // payload flag, zero bytes
+			case 1:
+				n := r.Range(1, 10)
+				p.AFLen, p.Payload = 183-n, r.Bytes(n)
+			default:
+				p.Payload = r.Bytes(184)
+				if r.Bool() {
+					copy(p.Payload, []byte{0, 0, 0xb0, byte(r.Range(5, 60))})
+				}
+			}
+			d = append(d, p.encode()...)
+		}
+		emit("empty-payload-packets", scenario{kind: r.Intn(3), optSize: 188, fault: -1, data: d, ops: []int{3, 1, 0}}.tok())
+	}
 	// truncation at every offset of a small stream
 	m := genRefStream(r, streamOpts{PESPIDs: 1, UnitsPerPID: 2, MaxPES: 200, Tables: true})
 	data := m.bytes()
